@@ -116,6 +116,9 @@ func init() {
 			} else {
 				w = Generate(c.Tape, tierProfile(profC04, c.Tier))
 				AddTagArgs(c.Tape, w) // some commands receive tag values ({t:port.key})
+				if HideParams(c.Tape, w) {
+					c.Probe("gofunc-with-hidden-params")
+				}
 			}
 			c.Sample = sample(w)
 			if v, done := defaultNamesDeterminism(c, w); done {
@@ -311,6 +314,45 @@ func pickRunTo(t *simrt.Tape, w *WF) {
 }
 
 var _ = fmt.Sprint
+
+// HideParams: some Go-function nodes with an in-port get their parameters only
+// through task.Param (ports made with InParam, no placeholder anywhere), and
+// one value of such a stream may be the empty string - a value like any other.
+func HideParams(t *simrt.Tape, w *WF) bool {
+	any := false
+	for i := range w.Nodes {
+		n := &w.Nodes[i]
+		if n.Kind != KProc || n.Custom == 0 || len(n.Ins) == 0 || n.Ins[0].Join || len(n.Params) == 0 {
+			continue
+		}
+		ok := true
+		for _, p := range n.Params {
+			if p.From != nil || len(p.Vals) == 0 {
+				ok = false
+			}
+		}
+		for _, o := range n.Outs {
+			if !strings.Contains(o.Pattern, "{i:a") {
+				ok = false
+			}
+		}
+		if !ok || t.Choose(simrt.StGen, 2, 0) != 1 {
+			continue
+		}
+		n.HiddenParams = true
+		for k := range n.Outs {
+			for _, p := range n.Params {
+				n.Outs[k].Pattern = strings.ReplaceAll(n.Outs[k].Pattern, ".{p:"+p.Name+"}", "")
+			}
+		}
+		if t.Choose(simrt.StGen, 2, 0) == 1 {
+			p := &n.Params[t.Choose(simrt.StGen, len(n.Params), 0)]
+			p.Vals[t.Choose(simrt.StGen, len(p.Vals), 0)] = ""
+		}
+		any = true
+	}
+	return any
+}
 
 // ExportCase generates a workflow for the native fidelity run (shell-command
 // processes, sources, parameters, taggers, joins; no Go-function tasks, no
